@@ -69,6 +69,7 @@ class Emitter:
         self.callees = {}  # cname -> description
         self.unit_names = set()
         self.news = {}
+        self.const_needed = set()
         self.field_inits = {}
         self.callflag = False
 
@@ -271,6 +272,10 @@ class Emitter:
 
     def global_name(self, n, rd):
         name = rd["name"]
+        if name in self.cfg.get("const_globals", {}):
+            # compile-time constant of the real code: evaluated by the real compiler (cxx2c.eval_constants)
+            self.const_needed.add(name)
+            return "VFC_" + ident(name)
         gmap = self.cfg.get("globals", {})
         cn = gmap.get(name, ident(name))
         ct = self.ctype((rd.get("type") or {}).get("desugaredQualType") or rd["type"]["qualType"]) \
@@ -705,6 +710,13 @@ class Emitter:
         r = self.lib.operator_call(self, n, name, args, fnt, rd) if self.lib else None
         if r is not None:
             return r
+        if rd.get("kind") == "CXXMethodDecl" and args:
+            # overloaded operator of a (SimGrid) class: an ordinary method call on the first operand
+            ct0 = self.try_ctype(args[0])
+            if ct0 and ct0.startswith("struct ") and not ct0.endswith("*") and not ct0.startswith("struct vf_"):
+                tag = ct0[len("struct "):]
+                self.structs.setdefault(tag, {})
+                return self.inferred_call(n, tag, name, self.addr_of(args[0]), args[1:])
         raise Unsupported("operator call %s on %s" % (name, qt(args[0]) if args else "?"))
 
     def e_CXXConstructExpr(self, n):
